@@ -657,21 +657,40 @@ func mkFV(r *Rng, n int, pol byte) []byte {
 	return b
 }
 
-// filler without '_' and '$' (no accidental "_FVH" / "$FPT")
+// filler without '_' and '$' (no accidental "_FVH" / "$FPT"). Long buffers get a constant
+// background with short random stretches at both ends and in the middle, so that case files
+// stay small (run-length encoded) while the boundaries are still exercised.
 func fill(r *Rng, b []byte, mode int, pol byte) {
-	for i := range b {
-		switch mode {
-		case 0:
-			b[i] = pol
-		case 1:
-			b[i] = byte(i*7 + 3)
-		default:
-			b[i] = byte(r.U64())
-		}
-		if b[i] == '_' || b[i] == '$' {
-			b[i] = 'a'
+	rnd := func(x []byte) {
+		for i := range x {
+			x[i] = byte(r.U64())
+			if x[i] == '_' || x[i] == '$' {
+				x[i] = 'a'
+			}
 		}
 	}
+	if mode == 0 {
+		for i := range b {
+			b[i] = pol
+		}
+		return
+	}
+	if len(b) <= 96 {
+		rnd(b)
+		return
+	}
+	bg := byte(0xA5)
+	if mode == 2 && r.Bool() {
+		bg = pol
+	}
+	for i := range b {
+		b[i] = bg
+	}
+	k := 1 + r.Intn(24)
+	rnd(b[:k])
+	rnd(b[len(b)-k:])
+	m := r.Intn(len(b) - 32)
+	rnd(b[m : m+1+r.Intn(24)])
 }
 
 type meOpts struct {
